@@ -119,6 +119,8 @@ def main():
         st = r.split()[0]
         if st == "0":
             return True
+        if st == "7":
+            return False        # not run: the driver had already stalled 40 times in this batch (those are reported)
         if op == 2 and st == "2":
             cls = u2b_stall_class(s) or "well-formed-input"
             c.violation("u2b-stall:" + cls, "Utf8ToBig5 does not return within %d ms on bytes [%s] (%s, %s)" % (DEADLINE_MS, " ".join("%02X" % b for b in s), cls, what),
